@@ -4,6 +4,8 @@
 //!        rdv --probe <name> <args...>      (subprocess probes; may crash by design)
 
 mod core;
+mod fixture;
+mod httpfake;
 mod refb;
 mod refwire;
 mod strings;
